@@ -45,6 +45,22 @@ Definition enc_pos (p : pos) : option json :=
 Definition opt_member (k : str) (o : option json) : list (str * json) :=
   match o with Some j => [(k, j)] | None => [] end.
 
+(* mapping a partial function over a list, left to right, first failure wins *)
+Definition map_res {A B} (f : A -> res B) : list A -> res (list B) :=
+  fix go (l : list A) : res (list B) :=
+    match l with
+    | [] => Ok []
+    | x :: r => match f x with
+                | Ok y => match go r with Ok ys => Ok (y :: ys) | Err c => Err c | Panic => Panic end
+                | Err c => Err c
+                | Panic => Panic
+                end
+    end.
+
+(* the members of the fields that are not left out, in declaration order *)
+Definition members (ds : list field_decl) (os : list (option json)) : list (str * json) :=
+  flat_map (fun dq => opt_member (f_name (fst dq)) (snd dq)) (combine ds os).
+
 Section Enc.
   Variable sch : schema.
   Variable tb : tables.
@@ -77,22 +93,11 @@ Section Enc.
                       | Some (p, e) => opt_member k_Pos (enc_pos p) ++ opt_member k_End (enc_pos e)
                       | None => []
                       end in
-            match (fix go (fs : list value) (ds : list field_decl) {struct fs} : res (list (str * json)) :=
-                     match fs, ds with
-                     | [], [] => Ok []
-                     | x :: r, fd :: ds' =>
-                         match (match x with
-                                | VPos p => Ok (enc_pos p)       (* field.Type == posType *)
-                                | _ => enc x end) with
-                         | Ok o => match go r ds' with
-                                   | Ok ms => Ok (opt_member (f_name fd) o ++ ms)
-                                   | e => e end
-                         | Err c => Err c
-                         | Panic => Panic
-                         end
-                     | _, _ => Err E_ILL
-                     end) fs (s_fields d) with
-            | Ok ms => Ok (Some (JObj (pe ++ ms)))
+            if negb (Nat.eqb (length fs) (length (s_fields d))) then Err E_ILL else
+            match map_res (fun x => match x with
+                                    | VPos p => Ok (enc_pos p)       (* field.Type == posType *)
+                                    | _ => enc x end) fs with
+            | Ok os => Ok (Some (JObj (pe ++ members (s_fields d) os)))
             | Err c => Err c
             | Panic => Panic
             end
@@ -100,17 +105,12 @@ Section Enc.
     | VSlice _ [] => Ok None
     | VSlice _ l =>
         (* enc.Index(i).Set(encElem) with an invalid encElem panics *)
-        match (fix go (l : list value) {struct l} : res (list json) :=
-                 match l with
-                 | [] => Ok []
-                 | x :: r =>
-                     match enc x with
-                     | Ok (Some j) => match go r with Ok js => Ok (j :: js) | e => e end
-                     | Ok None => Panic
-                     | Err c => Err c
-                     | Panic => Panic
-                     end
-                 end) l with
+        match map_res (fun x => match enc x with
+                                | Ok (Some j) => Ok j
+                                | Ok None => Panic
+                                | Err c => Err c
+                                | Panic => Panic
+                                end) l with
         | Ok js => Ok (Some (JArr js))
         | Err c => Err c
         | Panic => Panic
@@ -225,6 +225,8 @@ Section Dec.
   Fixpoint lookup_nat {A} (k : nat) (l : list (nat * A)) : option A :=
     match l with [] => None | (k', a) :: r => if Nat.eqb k k' then Some a else lookup_nat k r end.
 
+  Fixpoint filter_some {A} (l : list (option A)) : list A :=
+    match l with [] => [] | Some a :: r => a :: filter_some r | None :: r => filter_some r end.
   Definition is_meta_key (k : str) : bool := str_eqb k k_Type || str_eqb k k_Pos || str_eqb k k_End.
 
   (* decodeValue into a fresh zero value of type t (every destination in the code is fresh) *)
@@ -264,27 +266,23 @@ Section Dec.
                     (* a Pos destination: every key other than Type/Pos/End is an unknown field *)
                     if forallb (fun kv => is_meta_key (fst kv)) ms then Ok (wrap (VPos pos_zero)) else Err E_DEC
                 | Ok (Some (sid, ds)) =>
-                    match (fix go (ms : list (str * json)) {struct ms} : res (list (nat * value)) :=
-                             match ms with
-                             | [] => Ok []
-                             | (k, fv) :: r =>
-                                 if is_meta_key k then go r
-                                 else match index_of k ds O with
-                                      | None => Err E_DEC                 (* unknown field *)
-                                      | Some (i, ft) =>
-                                          match (match ft with
-                                                 | TPos => match dec_pos fv with
-                                                           | Ok p => Ok (VPos p) | Err c => Err c | Panic => Panic end
-                                                 | _ => dec ft fv end) with
-                                          | Ok x => match go r with Ok l => Ok ((i, x) :: l) | e => e end
-                                          | Err c => Err c
-                                          | Panic => Panic
-                                          end
-                                      end
-                             end) ms with
+                    match map_res (fun kv : str * json =>
+                              if is_meta_key (fst kv) then Ok None
+                              else match index_of (fst kv) ds O with
+                                   | None => Err E_DEC                 (* unknown field *)
+                                   | Some (i, ft) =>
+                                       match (match ft with
+                                              | TPos => match dec_pos (snd kv) with
+                                                        | Ok p => Ok (VPos p) | Err c => Err c | Panic => Panic end
+                                              | _ => dec ft (snd kv) end) with
+                                       | Ok x => Ok (Some (i, x))
+                                       | Err c => Err c
+                                       | Panic => Panic
+                                       end
+                                   end) ms with
                     | Ok found =>
                         Ok (wrap (VStruct sid None
-                                    (map (fun id => match lookup_nat (fst id) found with
+                                    (map (fun id => match lookup_nat (fst id) (filter_some found) with
                                                     | Some x => x
                                                     | None => zero_shallow (f_ty (snd id)) end)
                                          (combine (seq O (length ds)) ds))))
@@ -300,14 +298,7 @@ Section Dec.
         | KSlice =>
             match rv_slice_elem t with
             | Ok te =>
-                match (fix go (l : list json) {struct l} : res (list value) :=
-                         match l with
-                         | [] => Ok []
-                         | x :: r => match dec te x with
-                                     | Ok vx => match go r with Ok vs => Ok (vx :: vs) | e => e end
-                                     | e => match e with Ok _ => Err E_ILL | Err c => Err c | Panic => Panic end
-                                     end
-                         end) l with
+                match map_res (dec te) l with
                 | Ok vs => Ok (VSlice (match vs with [] => true | _ => false end) vs)
                 | Err c => Err c
                 | Panic => Panic
@@ -363,27 +354,23 @@ End Dec.
 Definition canon_pos (p : pos) : pos := if pos_omitted p then pos_zero else p.
 Fixpoint canon (v : value) : value :=
   match v with
-  | VStruct sid a fs => VStruct sid a ((fix go (l : list value) : list value :=
-                                          match l with [] => [] | x :: r => canon x :: go r end) fs)
+  | VStruct sid a fs => VStruct sid a (map canon fs)
   | VPtr (Some u) => VPtr (Some (canon u))
   | VIface (Some u) => VIface (Some (canon u))
   | VSlice b l =>
       match l with
       | [] => VSlice true []
-      | _ => VSlice b ((fix go (l : list value) : list value :=
-                          match l with [] => [] | x :: r => canon x :: go r end) l)
+      | _ => VSlice false (map canon l)    (* a slice with elements is not nil *)
       end
   | VPos p => VPos (canon_pos p)
   | _ => v
   end.
 Fixpoint erase (v : value) : value :=
   match v with
-  | VStruct sid _ fs => VStruct sid None ((fix go (l : list value) : list value :=
-                                             match l with [] => [] | x :: r => erase x :: go r end) fs)
+  | VStruct sid _ fs => VStruct sid None (map erase fs)
   | VPtr (Some u) => VPtr (Some (erase u))
   | VIface (Some u) => VIface (Some (erase u))
-  | VSlice b l => VSlice b ((fix go (l : list value) : list value :=
-                               match l with [] => [] | x :: r => erase x :: go r end) l)
+  | VSlice b l => VSlice b (map erase l)
   | _ => v
   end.
 
@@ -400,10 +387,14 @@ Section Checks.
                                          | Some n => n =? fst ns
                                          | None => false end) (snd e)) (ops_str tb).
 
+  (* element types of slices: no slices of positions or of slices *)
+  Definition elem_ty_ok (t : ty) : bool :=
+    match t with TPos | TSlice _ => false | _ => true end.
+  (* field types: no struct-valued fields besides Pos *)
   Definition field_ty_ok (t : ty) : bool :=
     match t with
-    | TStruct _ => false                                  (* no struct-valued fields besides Pos *)
-    | TSlice (TSlice _) => false
+    | TStruct _ => false
+    | TSlice te => elem_ty_ok te
     | _ => true
     end.
   (* what the round-trip proof needs from the schema and tables *)
@@ -418,6 +409,8 @@ Section Checks.
                        | None => false end)
             (combine (seq O (length (structs sch))) (structs sch)) &&
     forallb (fun d => match s_name d with [] => false | _ => true end) (structs sch) &&
+    (* what implements an interface is a node struct *)
+    forallb (fun i => forallb (is_node sch) (i_impls i)) (ifaces sch) &&
     (* a Stringer uint type is a TextUnmarshaler and vice versa *)
     forallb (fun d => Bool.eqb (u_stringer d) (u_unmarshaler d) && (u_bits d <=? 32)) (uints sch) &&
     ops_roundtrip.
